@@ -38,7 +38,7 @@ PROFILES = {
     # @string rules), entered from skipping and non-skipping rules
     "strings": dict(p_string_trailing_neg=0.3, p_trailing_neg=0.2, w_string=9, w_struct=4, w_unit=1, w_char=2, w_extern=4, w_alias=1, w_enum=1, p_fields_in_string=0.3, p_noskip=0.5, p_insens=0.3, p_ws_lit=0.1,
                     p_position=0.35, p_single_lit_string=0.3, nrules=(3, 7)),
-    "memo": dict(p_shared_prefix=0.35, p_memo=0.5, p_lookahead=0.2, nrules=(3, 7), p_check=0.3, p_ccheck=0.2, w_extern=4, w_char=2),
+    "memo": dict(p_include=0.3, p_noskip=0.4, p_shared_prefix=0.35, p_memo=0.5, p_lookahead=0.2, nrules=(3, 7), p_check=0.3, p_ccheck=0.2, w_extern=4, w_char=2),
     "memofail": dict(p_shared_prefix=0.5, w_alias=3, p_memo=1.0, p_probe=0.7, p_lookahead=0.15, w_extern=1, nrules=(3, 6), p_check=0.35, p_ccheck=0.2, w_char=2),
     "dupfields": dict(p_rebind_shape=0.2, p_nested_field_closure=0.4, nrules=(2, 4), depth=4, small_fieldpool=3, p_multitype=0.85, w_struct=8, w_string=3, w_unit=0, w_alias=0,
                       w_enum=0, w_char=1, p_include=0.15, p_lookahead=0.03, p_noskip=0.1, dense_fields=True),
